@@ -307,7 +307,7 @@ func (ex *Exec) encodeElemPtr(st *State, loc *Loc) *Term {
 // refFacts adds heap well-formedness facts for freshly loaded reference leaves.
 func (ex *Exec) refFacts(st *State, v Val) {
 	l := layoutOf(v.T)
-	if len(l.Leaves) > 8 {
+	if len(l.Leaves) > 40 {
 		return
 	}
 	for i, lf := range l.Leaves {
